@@ -1070,7 +1070,7 @@ class Processor:
                 for eleidx, element in enumerate(data):
                     next_translated_path = translated_path + "[{}]".format(
                         eleidx)
-                    next_ancestry = ancestry + [(data, stripped_attrs)]
+                    next_ancestry = ancestry + [(data, eleidx)]
                     for node_coord in self._get_nodes_by_path_segment(
                             element, yaml_path, segment_index, parent=data,
                             parentref=eleidx, traverse_lists=traverse_lists,
@@ -1948,10 +1948,12 @@ class Processor:
             elif isinstance(data, (CommentedSeq, list)):
                 for idx, ele in enumerate(data):
                     next_translated_path = translated_path + "[{}]".format(idx)
+                    next_ancestry = ancestry + [(data, idx)]
                     for node_coord in self._get_nodes_by_traversal(
                         ele, yaml_path, segment_index,
                         parent=data, parentref=idx,
-                        translated_path=next_translated_path
+                        translated_path=next_translated_path,
+                        ancestry=next_ancestry
                     ):
                         self.logger.debug(
                             "Yielding unfiltered Array value:",
@@ -1969,8 +1971,8 @@ class Processor:
                         prefix="Processor::_get_nodes_by_traversal:  ",
                         data=ele)
                     yield NodeCoords(
-                        ele, parent, ele, next_translated_path, ancestry,
-                        pathseg)
+                        ele, data, ele, next_translated_path,
+                        ancestry + [(data, ele)], pathseg)
             else:
                 self.logger.debug(
                     "Yielding unfiltered Scalar value:",
@@ -2126,7 +2128,8 @@ class Processor:
                     "Yielding set element:",
                     prefix=dbg_prefix, data=ele)
                 yield NodeCoords(
-                    ele, parent, ele, next_translated_path, ancestry, pathseg)
+                    ele, data, ele, next_translated_path,
+                    ancestry + [(data, ele)], pathseg)
             return
 
         self.logger.debug(
